@@ -77,6 +77,13 @@ func checkParts(scen string, in PartsIn) *mc.Violation {
 	if got != want {
 		return mc.V(scen, "parts-exact", in, fmt.Sprintf("%+v", want), fmt.Sprintf("%+v", got))
 	}
+	// the predicates derived from the parts: native = no revision text, empty = the zero value (never a parsed one)
+	if n := got.IsNative(); n != (want.Revision == "") {
+		return mc.V(scen, "parts-exact", in, fmt.Sprintf("IsNative()=%v for %+v", want.Revision == "", want), fmt.Sprint(n))
+	}
+	if got.Empty() {
+		return mc.V(scen, "parts-exact", in, fmt.Sprintf("Empty()=false for %+v", want), "true")
+	}
 	return nil
 }
 
@@ -134,6 +141,15 @@ func checkRT(scen string, in RTIn) []*mc.Violation {
 			out = append(out, mc.V(scen, "string-roundtrip", in, fmt.Sprintf("%+v", v), fmt.Sprintf("String()=%q rejected: %v", s, err), feats...))
 		} else if v2 != v {
 			out = append(out, mc.V(scen, "string-roundtrip", in, fmt.Sprintf("%+v", v), fmt.Sprintf("String()=%q parses to %+v", s, v2), feats...))
+		}
+		// the rendering without the epoch is the same text minus "<epoch>:" and parses to the same upstream and revision
+		if so := v.StringWithoutEpoch(); so != s && fmt.Sprintf("%d:%s", v.Epoch, so) != s {
+			out = append(out, mc.V(scen, "string-roundtrip", in, fmt.Sprintf("String()=%q without the epoch prefix", s), fmt.Sprintf("StringWithoutEpoch()=%q", so), feats...))
+		} else if !strings.Contains(v.Version, ":") {
+			w := version.Version{Version: v.Version, Revision: v.Revision}
+			if v6, err := version.Parse(so); err != nil || v6 != w {
+				out = append(out, mc.V(scen, "string-roundtrip", in, fmt.Sprintf("%+v", w), fmt.Sprintf("StringWithoutEpoch()=%q parses to %+v, %v", so, v6, err), feats...))
+			}
 		}
 		c, err := v.MarshalControl()
 		var v3 version.Version
